@@ -16,14 +16,25 @@ use std::cell::Cell;
 use std::rc::Rc;
 
 /// Instrumented frequency signal: run-length encoded plan, counts how often it is pulled.
+/// `exh >= 0`: the signal reports `is_exhausted()` once `exh` frames have been pulled from it, but goes
+/// on yielding its programmed frequencies (as `from_iter(dev).offset_amp(base)` does: adaptors forward
+/// `is_exhausted` of the finite part while their own output stays non-zero).  `exh < 0`: never exhausted.
 pub struct HzSrc {
     plan: Rc<Vec<(f64, u64)>>,
     seg: usize,
     used: u64,
     pulls: Rc<Cell<u64>>,
+    exh: i64,
+}
+/// what a source with threshold `exh` that has been pulled `pulls` times answers to `is_exhausted()`
+fn reports_exhausted(exh: i64, pulls: u64) -> bool {
+    exh >= 0 && pulls >= exh as u64
 }
 impl Signal for HzSrc {
     type Frame = f64;
+    fn is_exhausted(&self) -> bool {
+        reports_exhausted(self.exh, self.pulls.get())
+    }
     fn next(&mut self) -> f64 {
         self.pulls.set(self.pulls.get() + 1);
         while self.seg < self.plan.len() && self.used >= self.plan[self.seg].1 {
@@ -49,6 +60,7 @@ struct Set<S: Step> {
     anti: Option<(Sine<S>, Phase<S>)>,
     pulls: Vec<Rc<Cell<u64>>>,
     apulls: Vec<Rc<Cell<u64>>>,
+    exh: i64,
 }
 
 fn build_const(rate: f64, hz: f64) -> Set<ConstHz> {
@@ -62,9 +74,10 @@ fn build_const(rate: f64, hz: f64) -> Set<ConstHz> {
         anti: None,
         pulls: vec![],
         apulls: vec![],
+        exh: -1,
     }
 }
-fn build_hz(rate: f64, plan: Vec<(f64, u64)>) -> Set<Hz<HzSrc>> {
+fn build_hz(rate: f64, plan: Vec<(f64, u64)>, exh: i64) -> Set<Hz<HzSrc>> {
     let plan = Rc::new(plan);
     let mut shifted = vec![(rate / 2.0, 1u64)];
     shifted.extend(plan.iter().cloned());
@@ -74,7 +87,7 @@ fn build_hz(rate: f64, plan: Vec<(f64, u64)>) -> Set<Hz<HzSrc>> {
     let src = |p: &Rc<Vec<(f64, u64)>>, reg: &mut Vec<Rc<Cell<u64>>>| {
         let c = Rc::new(Cell::new(0));
         reg.push(c.clone());
-        HzSrc { plan: p.clone(), seg: 0, used: 0, pulls: c }
+        HzSrc { plan: p.clone(), seg: 0, used: 0, pulls: c, exh }
     };
     let phase = signal::rate(rate).hz(src(&plan, &mut pulls)).phase();
     let sine = signal::rate(rate).hz(src(&plan, &mut pulls)).sine();
@@ -89,11 +102,15 @@ fn build_hz(rate: f64, plan: Vec<(f64, u64)>) -> Set<Hz<HzSrc>> {
         asine.next();
         aphase.next_phase();
     });
-    Set { phase, sine, saw, square, simplex, stepper, anti: Some((asine, aphase)), pulls, apulls }
+    Set { phase, sine, saw, square, simplex, stepper, anti: Some((asine, aphase)), pulls, apulls, exh }
 }
 
 fn counts(v: &[Rc<Cell<u64>>]) -> Value {
     json!(v.iter().map(|c| c.get()).collect::<Vec<u64>>())
+}
+/// what each instrumented frequency signal answers to `is_exhausted()` right now
+fn exhd(v: &[Rc<Cell<u64>>], exh: i64) -> Value {
+    json!(v.iter().map(|c| reports_exhausted(exh, c.get())).collect::<Vec<bool>>())
 }
 
 fn hz_of(a: &Value) -> (f64, i64) {
@@ -136,7 +153,8 @@ fn run_set<S: Step>(out: &mut Out, mut set: Set<S>, ops: &[Value], const_hz: Opt
                     "next",
                     json!({"hz": f64f(hz), "hzi": hzi}),
                     r,
-                    json!({"ok": true, "has_anti": has_anti, "pulls": counts(&set.pulls), "apulls": counts(&set.apulls)}),
+                    json!({"ok": true, "has_anti": has_anti, "pulls": counts(&set.pulls), "apulls": counts(&set.apulls),
+                        "exhd": exhd(&set.pulls, set.exh)}),
                     h,
                 );
             }
@@ -175,7 +193,7 @@ fn run_set<S: Step>(out: &mut Out, mut set: Set<S>, ops: &[Value], const_hz: Opt
                     "agg",
                     json!({"hz": f64f(hz), "hzi": hzi, "n": n}),
                     r,
-                    json!({"ok": true, "pulls": counts(&set.pulls)}),
+                    json!({"ok": true, "pulls": counts(&set.pulls), "exhd": exhd(&set.pulls, set.exh)}),
                     h,
                 );
             }
@@ -192,7 +210,9 @@ pub fn osc_exec(out: &mut Out, ex: &[Value]) {
         _ => (unf64(&cfg["rate"]), -1),
     };
     let ops = &ex[1..];
-    let cfg_out = json!({"mode": mode, "rate": f64f(rate), "ratei": ratei});
+    // hz mode only: the frequency signals report exhaustion after `exh` pulls (and keep yielding)
+    let exh = if mode == "hz" { cfg["exh"].as_i64().unwrap_or(-1).max(-1) } else { -1 };
+    let cfg_out = json!({"mode": mode, "rate": f64f(rate), "ratei": ratei, "exh": exh});
     if mode == "const" {
         let first = if ops.is_empty() { (0.0, 0) } else { hz_of(&ops[0]["a"]) };
         match catch(|| build_const(rate, first.0)) {
@@ -207,7 +227,7 @@ pub fn osc_exec(out: &mut Out, ex: &[Value]) {
             .iter()
             .map(|op| (hz_of(&op["a"]).0, if op["ev"] == "agg" { op["a"]["n"].as_u64().unwrap() } else { 1 }))
             .collect();
-        match catch(|| build_hz(rate, plan)) {
+        match catch(|| build_hz(rate, plan, exh)) {
             None => out.line(&json!({"ev":"reset","comp":"osc","cfg":cfg_out,"r":r_panic(),"o":{"ok":false}})),
             Some(set) => {
                 out.line(&json!({"ev":"reset","comp":"osc","cfg":cfg_out,"r":r_unit(),"o":{"ok":true}}));
@@ -319,7 +339,9 @@ pub fn gen(rng: &mut Rng, tier: &str, execs: &mut Vec<Vec<Value>>) {
     for k in 0..n_exec {
         let rate = rates[k % 3];
         let mode = if k % 2 == 0 { "hz" } else { "const" };
-        let mut ex = vec![json!({"ev":"reset","comp":"osc","cfg":{"mode":mode,"ratei":rate as i64}})];
+        // every other hz-mode execution: the frequency signal reports exhaustion somewhere inside the run
+        let exh: i64 = if mode == "hz" && rng.chance(1, 2) { rng.below(frames as u64) as i64 } else { -1 };
+        let mut ex = vec![json!({"ev":"reset","comp":"osc","cfg":{"mode":mode,"ratei":rate as i64,"exh":exh}})];
         let style = rng.below(4);
         let base = any_hz(rng, rate);
         let mut walk = rng.below(20000) as f64;
@@ -346,7 +368,8 @@ pub fn gen(rng: &mut Rng, tier: &str, execs: &mut Vec<Vec<Value>>) {
         for mode in ["const", "hz"] {
             let reps = if thorough { 6 } else { 2 };
             for _ in 0..reps {
-                let mut ex = vec![json!({"ev":"reset","comp":"osc","cfg":{"mode":mode,"ratei":r}})];
+                let exh: i64 = if mode == "hz" && rng.chance(1, 2) { rng.below(40) as i64 } else { -1 };
+                let mut ex = vec![json!({"ev":"reset","comp":"osc","cfg":{"mode":mode,"ratei":r,"exh":exh}})];
                 let base = rng.below(100) as i64;
                 for _ in 0..40 {
                     ex.push(hzi_op(if mode == "const" { base } else { rng.below(100) as i64 }));
@@ -359,7 +382,8 @@ pub fn gen(rng: &mut Rng, tier: &str, execs: &mut Vec<Vec<Value>>) {
     // the rate (the phase must come back to exactly 0), and rates below 1 ("any positive sample rate")
     for &r in &[49i64, 98, 103, 107, 161] {
         for mode in ["const", "hz"] {
-            let mut ex = vec![json!({"ev":"reset","comp":"osc","cfg":{"mode":mode,"ratei":r}})];
+            let exh: i64 = if mode == "hz" { rng.range(-1, 6) } else { -1 };
+            let mut ex = vec![json!({"ev":"reset","comp":"osc","cfg":{"mode":mode,"ratei":r,"exh":exh}})];
             let base = r * (1 + rng.below(3) as i64);
             for j in 0..12 {
                 ex.push(hzi_op(if mode == "const" { base } else { r * (j % 4) as i64 }));
@@ -369,7 +393,8 @@ pub fn gen(rng: &mut Rng, tier: &str, execs: &mut Vec<Vec<Value>>) {
     }
     for &rate in &[0.5f64, 0.25, 0.75, 0.1] {
         for mode in ["const", "hz"] {
-            let mut ex = vec![json!({"ev":"reset","comp":"osc","cfg":{"mode":mode,"rate":f64f(rate)}})];
+            let exh: i64 = if mode == "hz" { rng.range(-1, 8) } else { -1 };
+            let mut ex = vec![json!({"ev":"reset","comp":"osc","cfg":{"mode":mode,"rate":f64f(rate),"exh":exh}})];
             let base = rate * (1 + rng.below(7)) as f64 / 8.0;
             for j in 0..16 {
                 ex.push(hz_op(if mode == "const" { base } else { rate * ((j * 3) % 11) as f64 / 8.0 }));
@@ -388,7 +413,7 @@ pub fn gen(rng: &mut Rng, tier: &str, execs: &mut Vec<Vec<Value>>) {
         };
         for mode in ["const", "hz"] {
             execs.push(vec![
-                json!({"ev":"reset","comp":"osc","cfg":{"mode":mode,"ratei":rate as i64}}),
+                json!({"ev":"reset","comp":"osc","cfg":{"mode":mode,"ratei":rate as i64,"exh": if mode == "hz" && k % 2 == 0 { 1000 } else { -1 }}}),
                 json!({"ev":"agg","a":{"hz": f64f(hz), "hzi": -1, "n": long}}),
             ]);
         }
@@ -396,7 +421,7 @@ pub fn gen(rng: &mut Rng, tier: &str, execs: &mut Vec<Vec<Value>>) {
     // a long run at an audio frequency and one far above the rate
     for &hz in &[440.0f64, 123456.789] {
         execs.push(vec![
-            json!({"ev":"reset","comp":"osc","cfg":{"mode":"hz","ratei":44100}}),
+            json!({"ev":"reset","comp":"osc","cfg":{"mode":"hz","ratei":44100,"exh":1}}),
             hz_op(hz),
             json!({"ev":"agg","a":{"hz": f64f(hz), "hzi": -1, "n": long / 4}}),
         ]);
